@@ -106,9 +106,14 @@ theorem C06h_sched_esc (cfg : Cfg) (defs : List Kind) (hd : HDefs) (s : St) (op 
       · rw [if_pos hph]; exact Or.inr rfl
       · rw [if_neg hph]; exact Or.inl rfl
 
-/-- **C06h_no_crash**: no suspension, continuation or revisit ever lets an exception out of the scheduler - WHATEVER the hooks
-    do (enter or leave anything from resume() and from pause(), raise), for every set of hook scripts, every history, from
-    every state.  Both loops walk over a copy of the task's contexts and keep every hook's exception to themselves (the
+/-- **C06h_no_crash**: IN THE MANUAL-BLOCK MODEL (every block of the task is operated by hand: `c.__enter__()` /
+    `c.__exit__(None, None, None)` calls, no `with` statement of the generator is open when the task is failed, so failing it
+    - `acceptError` - only stores the outcome) no suspension, continuation or revisit ever lets an exception out of the
+    scheduler - WHATEVER the hooks do (enter or leave anything from resume() and from pause(), raise), for every set of hook
+    scripts, every history, from every state.  This is NOT a statement about tasks with real with-blocks: there two raising
+    hooks DO let an error out of the real library (`generator.close()` runs the `__exit__`s, what they raise escapes from
+    `AsyncTask._computed`): `C06w_close_escape_counterexample` (Theorems/C06w.lean, Lib/ContextsWith.lean), the OPEN C08
+    finding `fail:hook-error-escapes-scheduler@continue`.  Both loops walk over a copy of the task's contexts and keep every hook's exception to themselves (the
     first one of a resume loop / the last one of a pause loop becomes the task's failure).  Before /repo commit 28d2b07 this
     needed the hypothesis `noExitOnResume hd` (the resume loop walked over the live dict: `C06h_resume_walks_copy`). -/
 theorem C06h_no_crash (cfg : Cfg) (defs : List Kind) (hd : HDefs) (ops : List HOp) :
@@ -269,7 +274,7 @@ example :
       { op := .enter 0, calls := [⟨true, 0, false⟩, ⟨true, 0, false⟩], esc := .none, vals := [77], status := .none }] = true := by
   decide
 
-/-- `C06h_no_crash` is not vacuous: a free set of scripts (resume() leaves and enters, pause() enters) and a history with
+/-- `C06h_no_crash` (manual-block model) is not vacuous: a free set of scripts (resume() leaves and enters, pause() enters) and a history with
     revisits in which every scheduler operation is executed -/
 example :
     let defs : List Kind := [.plain [] [], .plain [] [], .plain [] []]
